@@ -858,7 +858,21 @@ fn check_phase(b: &Bench, dag: bool, clones: bool, qualified: &[String], p: &Pha
                 ));
             }
             if p.err.as_ref() != Some(&expected) {
-                // signature refinement: sub-model missing from the list
+                // the sizes are right but a model is listed under another name than its
+                // qualified one: also a violation of C16 (sub-models are known as parent.child)
+                if let (Some(ErrKind::Deadlock(got)), ErrKind::Deadlock(exp)) = (p.err.as_ref(), &expected) {
+                    let mut a: Vec<usize> = got.iter().map(|x| x.1).collect();
+                    let mut c: Vec<usize> = exp.iter().map(|x| x.1).collect();
+                    a.sort();
+                    c.sort();
+                    if a == c {
+                        return Err(mfail(
+                            &["C06", "C16"],
+                            "stall-report-names",
+                            format!("{}: the run reported {:?}; the stalled mailboxes are {:?} (same sizes, different model names)", p.label, p.err, expected),
+                        ));
+                    }
+                }
                 return Err(mfail(
                     &["C06"],
                     "stall-report-mismatch",
